@@ -124,7 +124,10 @@ def withdraw_uni_position(self, vault_key, uni_position):
 REF_REDEEM = '''
 def _redeem_uni_token(self, position_info):
     self.squeeth_uni_pool.remove_liquidity(position_info, collect=False)
-    got = self.squeeth_uni_pool.collect_fee(position_info, collect_to_user=False)
+    got = self.squeeth_uni_pool.collect_fee(position_info, collect_to_user=False)     # (base, quote) of the pool
+    # the result is (weth, osqth) whatever the pool's quote token is
+    if self.squeeth_uni_pool.quote_token == WETH:
+        return got[1], got[0]
     return got[0], got[1]
 '''
 
